@@ -1251,9 +1251,9 @@ def zooModel : List (String × String) :=
    ("tagopt_param", "{Label:x Num:7 Multi:8 NoName:9 Dash:0 DashComma:0}|go:{Label:l Num:1 Multi:2 NoName:3 Dash:4 DashComma:5}"),
    ("tagopt_param_by_name", "{Label:x Num:7 Multi:0 NoName:0 Dash:0 DashComma:0}|go:{Label:l Num:1 Multi:2 NoName:3 Dash:4 DashComma:5}"),
    ("tagopt_param_dashcomma", "caught:TypeError|go:{Label:l Num:1 Multi:2 NoName:3 Dash:4 DashComma:5}"),
-   ("unicode_field_name", "undefined,false,2,1|go:{Ärger:1 A:2}"),
-   ("struct_param_from_bridged_map", "{C:0 S:[]}"),
-   ("struct_param_from_other_struct", "{C:0 S:[]}"),
+   ("unicode_field_name", "1,true,2,2|go:{Ärger:1 A:2}"),
+   ("struct_param_from_bridged_map", "caught:TypeError"),
+   ("struct_param_from_other_struct", "caught:TypeError"),
    ("struct_param_from_same_struct", "{C:9 S:[]}"),
    ("struct_param_from_plain_object", "{C:5 S:[]}")]
 
